@@ -14,7 +14,8 @@ Exact arithmetic (unit-carrying model of the raw-value site in `Solver.run`):
 * `stopped_axis_prefix`: with a stop condition the axis is a prefix of that grid (C16).
 * `schedule_axis_increasing` / `schedule_axis_nodup`: along **every** schedule of runs (fresh, continued, stopped,
   different time steps, different `Solver` objects), resets and attribute changes with positive time steps the
-  whole recorded axis is strictly increasing — no instant twice, none out of order (`run_axis_increasing` per run).
+  whole recorded axis is strictly increasing — no instant twice, none out of order (`run_axis_increasing` per run);
+  `reset_then_fresh_axis`: after `reset` the next run (any solver) records the axis of a first run.
 Floating point: the step count the code computes is `⌊(T/dt)(1+δ) + 10⁻⁹⌋` with `δ` the
 rounding of the quotient.
 * `count_robust`: for every perturbation with `n·|δ| < c ≤ ½` the guarded floor returns `n`
@@ -276,6 +277,18 @@ theorem schedule_axis_nodup (c : Cfg) (ops : List Op) (hops : PosSteps ops) (p v
     (h : exec c ops (St.init p v) = .ok s') : (s'.recs.map (·.time)).Nodup := by
   have := schedule_axis_increasing c ops hops (St.init p v) s' (by simp [St.init]) h
   exact this.imp (fun hab => ne_of_lt hab)
+
+/-- after `Powertrain.reset` the next run starts a fresh axis at 0, whatever had been recorded before and whichever
+    solver runs it: the axis of the rerun is the axis of a first run -/
+theorem reset_then_fresh_axis (c : Cfg) (dt : Q) (n : Nat) (s sr s' : St) (b : Bool)
+    (hr : reset s = .ok sr) (h : run c dt n none { sr with locked := b } = .ok s') :
+    s'.recs.map (·.time) = 0 :: grid 0 dt n := by
+  have h0 : sr.recs = [] := by
+    unfold reset at hr
+    split at hr
+    · simp at hr
+    · simp only [Except.ok.injEq] at hr; subst hr; rfl
+  exact fresh_axis c dt n { sr with locked := b } s' h0 h
 
 /-! ### non-vacuity: dt = 0.35 s, T = 10.5 s (the input that used to overrun) gives 30 steps -/
 example : nSteps Gen.tbl ⟨timeInt, 35/100, 0⟩ ⟨timeInt, 105/10, 0⟩ = 30 := by decide +kernel
